@@ -20,7 +20,7 @@ RULE = ("Hypothesis draws an initial line-up (repeated classes allowed) and a hi
 ASSUMPTIONS = ["only checkpoints written by the calibrator itself are read (legacy list-of-samplers pickles are covered by the "
                "repository's own plot tests)"]
 SHARDS = {"quick": 8, "thorough": 16}
-KINDS = ["halton", "rseq", "uniform", "pso", "best", "xgb"]
+KINDS = ["halton", "rseq", "uniform", "pso", "best", "xgb", "nested"]
 
 
 @st.composite
